@@ -1,5 +1,6 @@
 //! This crate contains the consensus component, which is responsible for handling the logic that allows us to reach agreement on blocks.
 //! It uses a new consensus algorithm developed at Matter Labs, called ChonkyBFT. You can find the specification of the algorithm [here](../../../../spec).
+#![allow(unexpected_cfgs)]
 
 use std::sync::Arc;
 
@@ -16,6 +17,8 @@ mod config;
 mod metrics;
 pub mod testonly;
 mod v2_chonky_bft;
+#[cfg(era_consensus_verif)]
+pub mod verif;
 
 // Renaming network messages for clarity.
 #[allow(missing_docs)]
